@@ -14,7 +14,7 @@ import ast
 
 from ..astutil import calls_in, call_name, where
 from ..cfg import build_cfg, enclosing_handlers
-from ..dataflow import def_value, node_defs, reaching_defs
+from ..dataflow import def_value, node_defs, reaching_defs, private_closure
 from ..logic import known, reach_avoiding
 from ..symtext import Expander
 from ..model import AnalysisError, unparse, walk_no_nested
@@ -224,6 +224,46 @@ def run(prog, rep):
                     rep.fail("ORDER-5", "%s|table-store" % m.short, "%s stores into the shared table" % m.short, where(m, n))
                 if isinstance(n, ast.Call) and m.params and unparse(n.func) in tuple("%s.%s" % (m.params[0], x) for x in ("update", "setdefault", "__setitem__")):
                     rep.fail("ORDER-5", "%s|table-update" % m.short, "%s updates the shared table" % m.short, where(m, n))
+
+    # ----------------------------------------------------------------- ESC-4
+    rep.rule("ESC-4", "raise summary of TemplateHandler._load and Terminologies._load: no refusal that originates in the cache_load of their module "
+                      "(fetch failed: URLError, no url scheme or undecodable bytes: ValueError) escapes - load() answers None for a resource that "
+                      "cannot be fetched. (OSError of the cache directory itself is outside the statement.)")
+    from .. import analysis as _an
+    from ..raises import Raises as _R
+    R4 = _R(_an.get(prog))
+    for qn, origin in (("templates.TemplateHandler._load", "templates.cache_load"), ("terminology.Terminologies._load", "terminology.cache_load")):
+        f4 = prog.func(qn)
+        leaks = sorted(set(s4.exc for s4 in R4.summary(f4) if s4.origin[0] == origin and s4.exc not in ("OSError",)))
+        rep.check(not leaks, "ESC-4", "%s: a failed fetch is answered with None" % qn, "nothing of %s escapes" % origin,
+                  "%s lets %s raised in %s escape: load() raises instead of returning None" % (qn, leaks, origin), f4.where,
+                  witness="load() of a template that is not UTF-8, or of a string without url scheme: UnicodeDecodeError / ValueError")
+
+    # ----------------------------------------------------------------- INIT-2
+    rep.rule("INIT-2", "the constructors of Document, Section and Property start no loader: no store in an __init__ goes through a setter that calls "
+                       "terminology.deferred_load / terminology.load (they store _repository, _link, _include directly). Every reader builds its "
+                       "objects with the constructors; a loader started while a terminology file is being parsed re-enters _load for the resource "
+                       "that is loading and publishes a second document under its url")
+    loaders = set()
+    for cname in ("Sectionable", "BaseDocument", "BaseSection", "BaseProperty"):
+        c0 = prog.cls(cname)
+        for pname, acc in c0.props.items():
+            st0 = acc.get("setter")
+            if st0 is not None and any(call_name(c) in ("terminology.deferred_load", "terminology.load") for c in calls_in(st0.node)):
+                loaders.add(pname)
+    rep.check(bool(loaders), "INIT-2", "setters that start a loader", str(sorted(loaders)), "no setter calls terminology.deferred_load any more", "")
+    for cname in ("BaseDocument", "BaseSection", "BaseProperty"):
+        init = prog.cls(cname).lookup_method("__init__")
+        for h in private_closure(init):
+            me = h.params[0] if h.params else "self"
+            for st0 in walk_no_nested(h.node):
+                tg = st0.targets if isinstance(st0, ast.Assign) else []
+                for t in tg:
+                    if isinstance(t, ast.Attribute) and unparse(t.value) == me and t.attr in loaders:
+                        rep.fail("INIT-2", "%s|self.%s =" % (h.short, t.attr), "%s assigns self.%s through the setter, which starts a background loader: "
+                                 "parsing any file that carries this attribute starts loaders as a side effect" % (h.short, t.attr), where(h, st0),
+                                 witness="load(root) where an included leaf names root as its <repository>: later load(root) calls return another object")
+    rep.ok("INIT-2", "constructors store loader attributes directly", "%s" % sorted(loaders), "")
 
     # ----------------------------------------------------------------- DOM-7
     rep.rule("DOM-7", "Sectionable.repository setter calls terminology.deferred_load(url) for a non-empty url; the include setter calls "
